@@ -57,6 +57,10 @@ func main() {
 		err = core.RunAclZ(w, *seed, *tier, *replay)
 	case "acla":
 		err = core.RunAclA(w, *seed, *tier, *replay)
+	case "aof":
+		err = core.RunAof(w, *seed, *tier, *replay)
+	case "snap":
+		err = core.RunSnap(w, *seed, *tier, *replay)
 	case "wire":
 		err = core.RunWire(w, *seed, *tier, *replay)
 	case "gen-facts":
